@@ -79,6 +79,34 @@ const TEXTS: &[&str] = &[
     "😀😀😀",
 ];
 
+/// (pattern, text) pairs that need many backtracks: each is additionally built with a backtrack
+/// limit just 50% above what its single-threaded search needs, so that any per-Regex (rather than
+/// per-search) accounting of the limit shows up as a changed result under concurrency.
+const TIGHT: &[(&str, &str)] = &[
+    (r"(\w+) (\w+) \2 \1", "abba noon otto abcd the cat sat on the mat on the"),
+    (r"(x+x+)+(?=y)", "xxxxxxxxxxxx!"),
+    (r"\b(\w)(\w)?\2?\1\b", "abcd efgh ijkl mnop abba"),
+    (r"(?:(a)|b)*\1c", "aababaababaabab"),
+];
+
+fn needed_limit(p: &str, t: &str) -> Option<usize> {
+    let reference = call(&Regex::new(p).ok()?, t, 0);
+    let with = |l: usize| fancy_regex::RegexBuilder::new(p).backtrack_limit(l).build().map(|r| call(&r, t, 0) == reference).unwrap_or(false);
+    if !with(2_000_000) {
+        return None;
+    }
+    let (mut lo, mut hi) = (0usize, 2_000_000usize); // invariant: with(hi), !with(lo - 1)
+    while lo < hi {
+        let mid = (lo + hi) / 2;
+        if with(mid) {
+            hi = mid;
+        } else {
+            lo = mid + 1;
+        }
+    }
+    Some(lo)
+}
+
 const APIS: usize = 5;
 
 fn caps_str(c: &Captures<'_>) -> String {
@@ -236,6 +264,27 @@ fn main() {
             }
         })
         .collect();
+    // tight-limit twins (not under Miri: calibration needs ~20 builds per pair)
+    let mut regexes = regexes;
+    let mut pats = pats;
+    let mut texts = texts;
+    let mut tight_info = vec![];
+    if mode != "miri" {
+        for (p, t) in TIGHT {
+            if let Some(need) = needed_limit(p, t) {
+                let limit = need + need / 2 + 5;
+                if let Ok(r) = fancy_regex::RegexBuilder::new(p).backtrack_limit(limit).build() {
+                    regexes.push(r);
+                    pats.push(p);
+                    if !texts.contains(t) {
+                        texts.push(t);
+                    }
+                    tight_info.push(format!("{} on {:?}: needs {} backtracks, limit {}", p, t, need, limit));
+                }
+            }
+        }
+    }
+    let (np, nt) = (regexes.len(), texts.len());
     // single-threaded table
     let mut table = Vec::with_capacity(np * nt * APIS);
     for re in &regexes {
@@ -309,6 +358,7 @@ fn main() {
         "mismatches": total.mismatches.len(), "mismatch_examples": total.mismatches.iter().filter(|s| !s.is_empty()).take(5).collect::<Vec<_>>(),
         "panics": total.panics.len(), "panic_examples": total.panics.iter().take(5).collect::<Vec<_>>(),
         "rounds": rounds, "thread_counts": thread_counts, "patterns": np, "texts": nt, "apis": ["captures", "find_iter", "is_match", "try_replacen(0, template)", "split"],
+        "tight_limit_regexes": tight_info,
         "watchdog_fired": watchdog, "wall_s": t0.elapsed().as_secs_f64(),
         "sample": {"pattern": pats[np - 1], "text": texts[nt - 1], "single_threaded_captures": sh.table[((np - 1) * nt + (nt - 1)) * APIS]},
     });
